@@ -474,7 +474,8 @@ func (b *ByteSequence) Decode(d *Decoder) error {
 
 	// make the slice with length
 	byteSequence := make([]byte, length)
-	_, err = d.buf.Read(byteSequence)
+	// a short read is a truncated input, not a shorter byte sequence
+	_, err = io.ReadFull(d.buf, byteSequence)
 	if err != nil {
 		return err
 	}
@@ -1052,7 +1053,7 @@ func (bf *Bitfield) Decode(d *Decoder) error {
 	cLog(Cyan, "Decoding Bitfield")
 
 	bytes := make([]byte, AvailBitfieldBytes)
-	_, err := d.buf.Read(bytes)
+	_, err := io.ReadFull(d.buf, bytes)
 	if err != nil {
 		return err
 	}
@@ -3153,7 +3154,7 @@ func (e *ExtrinsicData) Decode(d *Decoder) error {
 	}
 
 	data := make([]byte, length)
-	if _, err := d.buf.Read(data); err != nil {
+	if _, err := io.ReadFull(d.buf, data); err != nil {
 		return err
 	}
 	cLog(Yellow, "ExtrinsicData: %x", data)
